@@ -41,14 +41,15 @@ struct Sweep {
 };
 
 // how two numbers of a precision class compare
-inline bool num_equal(double a, double b, Prec p) {
+inline bool num_equal(double a, double b, Prec p, bool formatted = false) {
     if (a == b) return true;
     if (std::isnan(a) || std::isnan(b)) return std::isnan(a) && std::isnan(b);
     if (std::isinf(a) || std::isinf(b)) return false;
     if (p == Prec::EXACT) return false;
     const double m = std::max(std::fabs(a), std::fabs(b));
-    // REAL: both sides may differ by one rounding to float (2^-24 relative) plus the unit-conversion pair; 1.2e-7 = 2 float ulp-halves
-    const double rel = p == Prec::REAL ? 1.2e-7 : 2.0e-15;
+    // REAL: one rounding to float (2^-24 relative) plus the unit-conversion pair -> 1.2e-7; DBL: the conversion pair only.
+    // A FORMATTED file prints REAL with 8 and DOUB with 14 significant digits (relative error up to 5e-8 / 5e-14).
+    const double rel = p == Prec::REAL ? (formatted ? 2.5e-7 : 1.2e-7) : (formatted ? 1.0e-13 : 2.0e-15);
     return std::fabs(a - b) <= rel * m;
 }
 
@@ -252,8 +253,12 @@ inline void sched_restart(const Opm::Schedule& sched, std::size_t step, const Op
                 o.S(K + "kind", "udq.kind", "ASSIGN");
                 try {
                     std::string v;
-                    if (aa.var_type() == Opm::UDQVarType::WELL_VAR) { auto set = aa.eval(sched.wellNames(step)); for (const auto& e : set) v += e.wgname() + "=" + (e.defined() ? obs::d(e.get()) : std::string("undef")) + ","; }
-                    else if (aa.var_type() == Opm::UDQVarType::GROUP_VAR) { auto set = aa.eval(sched.groupNames(step)); for (const auto& e : set) v += e.wgname() + "=" + (e.defined() ? obs::d(e.get()) : std::string("undef")) + ","; }
+                    // An ASSIGN is evaluated once, at the report step it is entered, for the wells/groups known then; the values
+                    // persist in the UDQState.  So what the definition promises is the set of DEFINED values over the entities that
+                    // exist at min(step, report step of the assignment) - not what the record would give for later wells.
+                    const std::size_t at = std::min<std::size_t>(step, aa.report_step());
+                    if (aa.var_type() == Opm::UDQVarType::WELL_VAR) { auto set = aa.eval(sched.wellNames(at)); for (const auto& e : set) if (e.defined()) v += e.wgname() + "=" + obs::d(e.get()) + ","; }
+                    else if (aa.var_type() == Opm::UDQVarType::GROUP_VAR) { auto set = aa.eval(sched.groupNames(at)); for (const auto& e : set) if (e.defined()) v += e.wgname() + "=" + obs::d(e.get()) + ","; }
                     else if (aa.var_type() == Opm::UDQVarType::FIELD_VAR || aa.var_type() == Opm::UDQVarType::SCALAR) { auto set = aa.eval(); for (const auto& e : set) v += (e.defined() ? obs::d(e.get()) : std::string("undef")) + ","; }
                     o.S(K + "value", "udq.assign_value", v);
                 } catch (const std::exception& e) { o.S(K + "value", "udq.assign_throws", std::string("EXC ") + e.what()); }
@@ -276,7 +281,9 @@ inline void sched_restart(const Opm::Schedule& sched, std::size_t step, const Op
             o.N(K + "min_wait", "actionx.min_wait", a.min_wait());
             std::string c;
             for (const auto& cd : a.conditions()) {
-                c += "{" + cd.lhs.quantity + "("; for (auto& x : cd.lhs.args) c += x + ","; c += ")" + std::to_string(cd.comparator_as_int()) + cd.rhs.quantity + "("; for (auto& x : cd.rhs.args) c += x + ","; c += ")";
+                // a numeric operand is a number, however it is spelled ("0.95" / "0.950000")
+                auto opnd = [](const std::string& q) { char* end = nullptr; const double v = std::strtod(q.c_str(), &end); return (!q.empty() && end && *end == 0) ? "#" + obs::d(v) : q; };
+                c += "{" + opnd(cd.lhs.quantity) + "("; for (auto& x : cd.lhs.args) c += x + ","; c += ")" + std::to_string(cd.comparator_as_int()) + opnd(cd.rhs.quantity) + "("; for (auto& x : cd.rhs.args) c += x + ","; c += ")";
                 c += " L" + std::to_string(cd.logic_as_int()) + " P" + std::to_string(cd.paren_as_int()) + "}";
             }
             o.S(K + "conditions", "actionx.conditions", c);
